@@ -76,13 +76,14 @@ struct PHist {
   int pick_live() { int c[3], k = 0; for (int i = 0; i < 3; ++i) if (live(i)) c[k++] = i; return c[r.below(k)]; }
   int pick_compatible(int s) { int c[3], k = 0; for (int i = 0; i < 3; ++i) if (live(i) && dim(i) == dim(s)) c[k++] = i; return c[r.below(k)]; }
 
+  bool pm = false;     // print minimized systems?  (chosen once per observation: raw and observed alike)
   void put_pair(OS& o, const D1& a, const D2& b, dimension_type n) {
-    bool m = r.chance(1, 2);
-    CK<D1>::put(o, a, n, m); CK<D2>::put(o, b, n, m);
+    CK<D1>::put(o, a, n, pm); CK<D2>::put(o, b, n, pm);
   }
   // print the claimed raw components, then force the reduction and print the observed ones
   void observe(int s) {
     Slot& S = slot[s]; dimension_type n = S.p->space_dimension();
+    pm = r.chance(1, 2);
     if (S.raw_known) { OS o; o << "praw " << s << " " << n; put_pair(o, *S.s1, *S.s2, n); J.line(o.str()); }
     bool expl = r.chance(1, 2);
     if (expl) { bool did = S.p->reduce(); OS o; o << "pexp " << s << " " << did; J.line(o.str()); }
@@ -138,6 +139,7 @@ struct PHist {
 
   void query(int s) {
     Slot& S = slot[s]; dimension_type n = dim(s); PR& P = *S.p;
+    if (S.raw_known) { OS q; q << "praw " << s << " " << n; put_pair(q, *S.s1, *S.s2, n); J.line(q.str()); }
     OS o; o << "pq " << s << " ";
     switch (r.below(12)) {
       case 0: case 1: o << "is_empty " << P.is_empty(); break;
@@ -167,11 +169,13 @@ struct PHist {
     // the predicate reduced the product: the raw state is the last observed one only if it was observed
     J.line(o.str());
     S.raw_known = false;
+    observe(s);      // the predicate may have reduced: print the components (judged against the praw above) and resynchronise
   }
 
   // one step: a component-wise operator applied to the product and to the shadows
   void mutate() {
     int s = pick_live();
+    if (!slot[s].raw_known) observe(s);
     Slot& S = slot[s]; PR& P = *S.p; dimension_type n = dim(s);
     OS o;
     unsigned k = r.below(24);
@@ -201,30 +205,34 @@ struct PHist {
       // ---- operators that reduce first: judged by the sandwich  image(meet) <= result <= component-wise
       case 12: case 13: { dimension_type v = r.below(n);
         if (!S.raw_known) observe(s);
+        { OS q; q << "praw " << s << " " << n; put_pair(q, *S.s1, *S.s2, n); J.line(q.str()); }
         o << "pimp " << s << " unconstrain " << v; J.line(o.str());
         P.unconstrain(Variable(v)); S.s1->unconstrain(Variable(v)); S.s2->unconstrain(Variable(v));
         observe_implicit(s); return; }
       case 14: case 15: { int t = pick_compatible(s); if (t == s) return;
         if (!S.raw_known) observe(s); if (!slot[t].raw_known) observe(t);
+        { OS q; q << "praw " << s << " " << n; put_pair(q, *S.s1, *S.s2, n); J.line(q.str()); }
         { OS q; q << "praw " << t << " " << n; put_pair(q, *slot[t].s1, *slot[t].s2, n); J.line(q.str()); }
         o << "pimp " << s << " ub " << t; J.line(o.str());
         P.upper_bound_assign(*slot[t].p); S.s1->upper_bound_assign(*slot[t].s1); S.s2->upper_bound_assign(*slot[t].s2);
         slot[t].raw_known = false;
-        observe_implicit(s); return; }
+        observe_implicit(s); observe(t); return; }
       case 16: case 17: { int t = pick_compatible(s); if (t == s) return;
         if (!S.raw_known) observe(s); if (!slot[t].raw_known) observe(t);
+        { OS q; q << "praw " << s << " " << n; put_pair(q, *S.s1, *S.s2, n); J.line(q.str()); }
         { OS q; q << "praw " << t << " " << n; put_pair(q, *slot[t].s1, *slot[t].s2, n); J.line(q.str()); }
         o << "pimp " << s << " diff " << t; J.line(o.str());
         P.difference_assign(*slot[t].p); S.s1->difference_assign(*slot[t].s1); S.s2->difference_assign(*slot[t].s2);
         slot[t].raw_known = false;
-        observe_implicit(s); return; }
+        observe_implicit(s); observe(t); return; }
       case 18: { int t = pick_compatible(s); if (t == s) return;
         if (!S.raw_known) observe(s); if (!slot[t].raw_known) observe(t);
+        { OS q; q << "praw " << s << " " << n; put_pair(q, *S.s1, *S.s2, n); J.line(q.str()); }
         { OS q; q << "praw " << t << " " << n; put_pair(q, *slot[t].s1, *slot[t].s2, n); J.line(q.str()); }
         o << "pimp " << s << " time_elapse " << t; J.line(o.str());
         P.time_elapse_assign(*slot[t].p); S.s1->time_elapse_assign(*slot[t].s1); S.s2->time_elapse_assign(*slot[t].s2);
         slot[t].raw_known = false;
-        observe_implicit(s); return; }
+        observe_implicit(s); observe(t); return; }
       case 19: { // copy / assignment
         int d = r.below(3); if (d == s) return;
         if (!S.raw_known) observe(s);
